@@ -215,7 +215,7 @@ func (p *c32Post) count() int {
 }
 
 type c32Op struct {
-	Op    string `json:"op"` // grow | sub | resub
+	Op    string `json:"op"` // grow | sub | resub | failresub
 	N     int    `json:"n,omitempty"`
 	Reorg bool   `json:"reorg,omitempty"`
 	Minus bool   `json:"minusOne,omitempty"` // notify with -1, as disconnectBlock does
@@ -255,7 +255,10 @@ func c32Gen(t *rapid.T) c32Case {
 	c.Ops = append(c.Ops, c32Op{Op: "sub", Name: "a", Type: int32(rapid.IntRange(0, 1).Draw(t, "typeA")), Start: rapid.Bool().Draw(t, "startA")})
 	n := rapid.IntRange(3, 8).Draw(t, "nops")
 	for i := 0; i < n; i++ {
-		switch rapid.SampledFrom([]string{"grow", "grow", "grow", "sub", "resub"}).Draw(t, "op") {
+		switch rapid.SampledFrom([]string{"grow", "grow", "grow", "sub", "resub", "failresub"}).Draw(t, "op") {
+		case "failresub":
+			// a delivery fails, and the subscriber re-registers while the task is still backing off; the chain keeps growing
+			c.Ops = append(c.Ops, c32Op{Op: "failresub", Name: rapid.SampledFrom(names).Draw(t, "whoFR"), N: rapid.IntRange(1, 12).Draw(t, "nFR")})
 		case "grow":
 			c.Ops = append(c.Ops, c32Op{Op: "grow", N: rapid.IntRange(1, 25).Draw(t, "n"), Reorg: rapid.IntRange(0, 3).Draw(t, "reorg") == 0, Minus: rapid.IntRange(0, 4).Draw(t, "minus") == 0})
 		case "sub":
@@ -268,21 +271,21 @@ func c32Gen(t *rapid.T) c32Case {
 	return c
 }
 
-func c32Run(t lib.TB, test string, c c32Case) (failThenOK, deactResume bool) {
+func c32Run(t lib.TB, test string, c c32Case) (failThenOK, deactResume, resubInBackoff bool) {
 	ss := &c32SeqStore{cfg: c32Cfg, blocks: map[string]*types.BlockDetail{}}
 	kv := &c32KV{m: map[string][]byte{}}
 	post := &c32Post{scripts: map[string][]bool{}}
 	for k, v := range c.Scripts {
 		post.scripts[k] = append([]bool{}, v...)
 	}
-	p := &Push{store: kv, sequenceStore: ss, tasks: map[string]*pushNotify{}, postService: post, cfg: c32Cfg, postFail2Sleep: 1, postwg: &sync.WaitGroup{}}
+	p := &Push{store: kv, sequenceStore: ss, tasks: map[string]*pushNotify{}, postService: post, cfg: c32Cfg, postFail2Sleep: 3, postwg: &sync.WaitGroup{}}
 	defer p.Close()
 	subs := map[string]*types.PushSubscribeReq{}
 	resume := map[string]int64{} // explicit resume point per subscriber (-1 = none)
 	settle := func() {
 		// pacing only: wait until the endpoint has seen no new attempt for a while (the service sleeps 1s after a failure)
 		last, stable := post.count(), 0
-		for i := 0; i < 600 && stable < 14; i++ {
+		for i := 0; i < 900 && stable < 36; i++ {
 			time.Sleep(100 * time.Millisecond)
 			if n := post.count(); n != last {
 				last, stable = n, 0
@@ -323,6 +326,45 @@ func c32Run(t lib.TB, test string, c c32Case) (failThenOK, deactResume bool) {
 				lib.Violation(t, "C32", test, c, "registering subscriber %s failed: %v", op.Name, err)
 			}
 			subs[op.Name] = s
+		case "failresub":
+			s := subs[op.Name]
+			if s == nil {
+				continue
+			}
+			// make the next attempt for this subscriber fail once
+			post.mu.Lock()
+			post.scripts[op.Name] = append([]bool{false, true}, post.scripts[op.Name]...)
+			before := 0
+			for _, a := range post.attempts {
+				if a.Name == op.Name && !a.OK {
+					before++
+				}
+			}
+			post.mu.Unlock()
+			p.UpdateSeq(ss.grow(op.N, false))
+			// pacing only: wait (bounded) until that failed attempt was made, then re-register at once, inside the back-off
+			failedNow := false
+			for i := 0; i < 100 && !failedNow; i++ {
+				time.Sleep(50 * time.Millisecond)
+				post.mu.Lock()
+				n := 0
+				for _, a := range post.attempts {
+					if a.Name == op.Name && !a.OK {
+						n++
+					}
+				}
+				post.mu.Unlock()
+				failedNow = n > before
+			}
+			if err := p.addSubscriber(s); err != nil {
+				lib.Violation(t, "C32", test, c, "re-registering subscriber %s failed: %v", op.Name, err)
+			}
+			if failedNow {
+				resubInBackoff = true
+			}
+			p.UpdateSeq(ss.grow(2, false))
+			time.Sleep(200 * time.Millisecond)
+			p.UpdateSeq(ss.grow(1, false))
 		case "resub":
 			if s := subs[op.Name]; s != nil {
 				if err := p.addSubscriber(s); err != nil {
@@ -394,7 +436,10 @@ func TestPropPushOrderedGapFree(t *testing.T) {
 	rapid.Check(t, func(t *rapid.T) {
 		c := c32Gen(t)
 		lib.Eval()
-		f, d := c32Run(t, "TestPropPushOrderedGapFree", c)
+		f, d, rb := c32Run(t, "TestPropPushOrderedGapFree", c)
+		if rb {
+			lib.Class("reregistered_during_backoff")
+		}
 		if f {
 			lib.Class("failed_post_then_ack")
 		}
